@@ -396,9 +396,26 @@ func funcName(f *ssa.Function) string {
 	if f == nil {
 		return "<nil>"
 	}
+	// a renamed function keeps the label it had in the baseline, so that constructs (and the
+	// known-findings keyed on them) stay stable; closures of it follow
+	if l, ok := roles.funcLabel[f]; ok {
+		return l
+	}
+	if par := f.Parent(); par != nil {
+		if _, renamed := roles.funcLabel[outermost(f)]; renamed {
+			return funcName(par) + strings.TrimPrefix(f.String(), par.String())
+		}
+	}
 	s := f.String()
 	s = strings.ReplaceAll(s, modPath+"/", "")
 	return s
+}
+
+func outermost(f *ssa.Function) *ssa.Function {
+	for f.Parent() != nil {
+		f = f.Parent()
+	}
+	return f
 }
 
 // instrPos finds a usable position for an instruction (falls back to operands / block neighbours).
